@@ -441,14 +441,16 @@ PROPS = {
                     'returns exactly what the sender-side ghost expects (C05 in TraceDec). Non-trivial = distinct decode operations '
                     'feeding a segment (tree stages) / distinct episodes feeding at least one segment (random stage).',
             'assumptions': COMMON_ASSUMPTIONS},
-    'C06': {'level': 'model_checking', 'stages': [DEC_APALACHE_NOMIX, DEC_FAULTS, DEC_LINK_WALKS, DEC_RFAULTS], 'nontrivial_case': nt_dec_fault, 'nontrivial_op': ntop_fault,
+    'C06': {'level': 'model_checking', 'technique': 'TLA+ specification model-checked with TLC; TLC-generated behaviours replayed on the real code; recorded traces validated by TLC against the specification; the no-mixing core also as an inductive invariant of a counter-level abstraction discharged by Apalache (unbounded history)',
+            'stages': [DEC_APALACHE_NOMIX, DEC_FAULTS, DEC_LINK_WALKS, DEC_RFAULTS], 'nontrivial_case': nt_dec_fault, 'nontrivial_op': ntop_fault,
             'rule': 'MC_Link/Faults: the Reassembly senders plus every placement of up to MaxFaults faults (drop, duplicate, '
                     'hold/release reordering, corrupt version, corrupt type); tree replay on the real decoder; plus seeded random '
                     'fault sequences. Monitors NoCorruption (every delivered packet equals a declared sent message of its '
                     'endpoint) and Recovery (a last segment extending a clean run delivers). Non-trivial = distinct faulted '
                     'operations (tree stage) / distinct episodes containing at least one fault (random stage).',
             'assumptions': COMMON_ASSUMPTIONS},
-    'C17': {'level': 'model_checking', 'stages': [DEC_APALACHE, DEC_ANY, DEC_ANY_WALKS, DEC_RANY, DEC_STREAMS, SUITE_DEC], 'nontrivial_case': nt_dec_segmented, 'nontrivial_op': ntop_segment,
+    'C17': {'level': 'model_checking', 'technique': 'TLA+ specification model-checked with TLC; TLC-generated behaviours replayed on the real code; recorded traces validated by TLC against the specification; the byte bound also as an inductive invariant of a record-level abstraction discharged by Apalache (unbounded history)',
+            'stages': [DEC_APALACHE, DEC_ANY, DEC_ANY_WALKS, DEC_RANY, DEC_STREAMS, SUITE_DEC], 'nontrivial_case': nt_dec_segmented, 'nontrivial_op': ntop_segment,
             'rule': 'MC_DecAny: every history up to MaxFrames buffers over an alphabet of well-formed, orphan, out-of-order, '
                     'changed-version/type, trailing-byte, multi-message, invalid, truncated, header-only, undersized and '
                     'TECMP-routed buffers on NEndpoints endpoints, counters crossing the wrap; tree replay on the real decoder; '
